@@ -395,7 +395,7 @@ func (m *Model) Apply(op Op, now int64) Outcome {
 		return m.applyLink(op)
 	case "incr", "decr", "setCount":
 		return m.applyRc(op)
-	case "preCommit", "commitAction":
+	case "preCommit", "commitAction", "listen":
 		return Outcome{OK: true}
 	}
 	panic("model: unknown op kind " + op.K)
@@ -543,6 +543,8 @@ func (m *Model) applyCreate(op Op, now int64) Outcome {
 			if !m.refTargetExists(op.S, *op.Ref) {
 				return reject("ref-missing", EcNotFound)
 			}
+		} else if op.S == StMemos {
+			return reject("ref-null", EcAny) // the fk constraint on memos.topic does not allow null or empty values
 		}
 		tbl[id] = cloneStrP(op.Ref)
 		return Outcome{OK: true, Events: []Ev{{op.S, EvCreate, id, m.snapOf(op.S, id), false}}}
@@ -760,6 +762,9 @@ func (m *Model) applyUpdate(op Op, now int64) Outcome {
 			if !m.refTargetExists(op.S, *ref) {
 				return reject("ref-missing", EcNotFound)
 			}
+		}
+		if strOr(ref) != strOr(cur) && strOr(ref) == "" && op.S == StMemos {
+			return reject("ref-null", EcAny)
 		}
 		tbl[id] = ref
 		return Outcome{OK: true, Events: []Ev{{op.S, EvUpdate, id, m.snapOf(op.S, id), false}}}
@@ -1157,4 +1162,12 @@ func (m *Model) refTargetExists(store, id string) bool {
 	}
 	_, ok := m.People[id]
 	return ok
+}
+
+// idInAnyStore: an entity of one of the stores whose id alphabets overlap (people, badges, notes) has this id.
+func (m *Model) idInAnyStore(id string) bool {
+	_, p := m.People[id]
+	_, b := m.Badges[id]
+	_, n := m.Notes[id]
+	return p || b || n
 }
